@@ -23,6 +23,12 @@ def run(rep, tier, seed):
         a += 1; ka.add((case['op'], case['kinds'], case['D'], case['P'], str(case['shape'])))
         if fail: rep.violation('operator %s %s' % (case['op'], case['kinds']), 'alias', '%s: %s' % (case, fail), {'kind': 'alias', 'case': case, 'failure': fail})
     rep.add_bounded('x op x / x op= x / x op= view(x)', a, len(ka), 'all binary and in-place operators with both operands the same object or the right one a view of the left, vs independent copies', [{'op': '*=', 'kinds': 'x op= x (same object)'}], 'D<=3,P<=2')
+    m = 0; kk = set(); s4 = []
+    for case, fail in misc_checks.linalg_frames(random.Random(6700 + seed), tier):
+        m += 1; kk.add((case['fn'], str(case['shape']), case['D'], case['P'], case['layout']))
+        if len(s4) < 2: s4.append(case)
+        if fail: rep.violation('frame:%s' % case['fn'], case['layout'], '%s: %s' % (case, fail), {'kind': 'linalg-frame', 'case': case, 'failure': fail})
+    rep.add_bounded('matrix functions and factorizations: operand frames in three memory layouts', m, len(kk), 'qr, qr_full, cholesky, lu, eigh, eig, svd, inv, det, logdet, expm, trace, solve, dot, diag, triu, symvec, sum: the operand and the array owning the view passed are byte-identical after the call; layouts C-contiguous / every (d,p) slice Fortran-contiguous / strided view', s4, 'sizes <= 4, D <= 4, P <= 3')
     rep.assume(*[ASSUME[k_] for k_ in ('A3', 'A4', 'A6', 'A8', 'A8b', 'A9', 'A11')])
     rep.extra['explanation'] = 'proved: exact frames of the kernels under contract for every aliasing configuration used at a call site; bounded: the public operation layer and the tracer'
     return rc
